@@ -656,6 +656,19 @@ void sphericalBody(vf::Ctx & c, double nD, double azD, double elD)
     CHECK(dh <= tol, vf::fmt("homogeneous spherical round trip differs from p=(%.17g, %.17g, %.17g) by %.3g (tolerance %.3g)",
       static_cast<double>(x), static_cast<double>(y), static_cast<double>(z), dh, tol));
     CHECK(bh[3] == S(1), "toHomogeneous(spherical): homogeneous coordinate is not 1");
+    // point overloads of the component functions (both scalar types): same round trip
+    {
+      const C3 pc(x, y, z);
+      const H3 ph(x, y, z);
+      S rp = rc_::SphericalTransform::range(pc), ap = rc_::SphericalTransform::azimut(pc), ep = rc_::SphericalTransform::elevation(pc);
+      double dpc = diff(rc_::SphericalTransform::x(rp, ap, ep), rc_::SphericalTransform::y(rp, ap, ep), rc_::SphericalTransform::z(rp, ep));
+      CHECK(dpc <= tol, vf::fmt("SphericalTransform range/azimut/elevation(Cartesian point) round trip differs from p=(%.17g, %.17g, %.17g) by %.3g (tolerance %.3g)",
+        static_cast<double>(x), static_cast<double>(y), static_cast<double>(z), dpc, tol));
+      S rh = rc_::SphericalTransform::range(ph), ah = rc_::SphericalTransform::azimut(ph), eh = rc_::SphericalTransform::elevation(ph);
+      double dph = diff(rc_::SphericalTransform::x(rh, ah, eh), rc_::SphericalTransform::y(rh, ah, eh), rc_::SphericalTransform::z(rh, eh));
+      CHECK(dph <= tol, vf::fmt("SphericalTransform range/azimut/elevation(homogeneous point) round trip differs from p=(%.17g, %.17g, %.17g) by %.3g (tolerance %.3g)",
+        static_cast<double>(x), static_cast<double>(y), static_cast<double>(z), dph, tol));
+    }
     // scalar overloads
     S r2 = rc_::SphericalTransform::range(x, y, z), a2 = rc_::SphericalTransform::azimut(x, y), e2 = rc_::SphericalTransform::elevation(x, y, z);
     double dsc = diff(rc_::SphericalTransform::x(r2, a2, e2), rc_::SphericalTransform::y(r2, a2, e2), rc_::SphericalTransform::z(r2, e2));
